@@ -95,6 +95,8 @@ def run_case(case, rec, ssj=None):
     entry = rng.choice(['join', 'join', 'ft', 'pair', 'candset'])
     base = {'ltable': L, 'rtable': R, 'l_key': 'lid', 'r_key': 'rid', 'l_attr': 'lattr',
             'r_attr': 'rattr', 'tok': tok, 'n_jobs': rng.choice([1, 2, 3, 4, 20])}
+    if rng.random() < 0.1:
+        base['show_progress'] = True
     view = oracle.TableView(dict(base))
     le, re_ = view.empties()
     both = set((i, j) for i in le for j in re_)
